@@ -913,6 +913,44 @@ def oracle(case):
             left = [f'{x.id}:{x.version}' for x in wn.lexicons()]
             if left:
                 _push(out, Disc('rejected-add-leaves-lexicon-visible', 'wn.lexicons()', [], left))
+        # the same lexicon is rejected whatever else is installed or supplied with it: here it
+        # follows, in one resource, an extension of an installed lexicon that declares as
+        # external exactly the ids the broken lexicon refers to without defining them
+        lexdoc = loaded['lexicons'][0]
+        own_ss = {ss['id'] for ss in lexdoc.get('synsets', [])}
+        own_s = {s_['id'] for e_ in lexdoc.get('entries', []) for s_ in e_.get('senses', [])}
+        dangling_ss = set()
+        for e_ in lexdoc.get('entries', []):
+            for s_ in e_.get('senses', []):
+                if s_['synset'] not in own_ss:
+                    dangling_ss.add(s_['synset'])
+        for ss in lexdoc.get('synsets', []):
+            for r in ss.get('relations', []):
+                if r['target'] not in own_ss and r['target'] not in own_s:
+                    dangling_ss.add(r['target'])
+        if dangling_ss:
+            base = {'id': 'zbase', 'version': '1', 'label': 'b', 'language': 'en', 'email': 'e',
+                    'license': 'l', 'meta': None,
+                    'synsets': [{'id': i, 'ili': '', 'partOfSpeech': 'n', 'meta': None}
+                                for i in sorted(dangling_ss)]}
+            ext = {'id': 'zext', 'version': '1', 'label': 'x', 'language': 'en', 'email': 'e',
+                   'license': 'l', 'meta': None, 'extends': {'id': 'zbase', 'version': '1'},
+                   'synsets': [{'id': i, 'external': True} for i in sorted(dangling_ss)]}
+            db = env.fresh_db()
+            wn.add_lexical_resource({'lmf_version': '1.1', 'lexicons': [base]},
+                                    progress_handler=None)
+            before = dumps.raw_dump(db.file)
+            import copy as _copy
+            res2 = {'lmf_version': '1.1', 'lexicons': [ext, _copy.deepcopy(lexdoc)]}
+            try:
+                wn.add_lexical_resource(res2, progress_handler=None)
+            except Exception:  # noqa: BLE001
+                for p, e, g in diff(before, dumps.raw_dump(db.file))[:5]:
+                    _push(out, Disc('rejected-add-changes-database', f'after-extension{p}', e, g))
+            else:
+                _push(out, Disc('add-accepts-lexicon-with-missing-target',
+                                '+'.join(listed) + ' (after an extension declaring the ids external)',
+                                'add_lexical_resource raises', sorted(dangling_ss)))
 
     # command line: exit status 0 iff every selected check is empty
     if case.get('cli'):
